@@ -54,6 +54,7 @@ type VC struct {
 	notes     []string
 	inputSyms []InputSym // for replay
 	nfresh    int
+	target    *ssa.Function // function under proof (nil for lemmas)
 	sideStack [][]*Term
 }
 
@@ -61,6 +62,7 @@ type InputSym struct {
 	Param string
 	Path  string // e.g. "", ".len", "[k]"
 	Sym   string
+	ByteSlice bool
 }
 
 func (vc *VC) decl(name, sort string) *Term {
